@@ -37,7 +37,12 @@ func PadPKCS7(buf []byte, size int) ([]byte, error) {
 	bufLen := len(buf)
 	padLen := size - bufLen%size
 	padding := bytes.Repeat([]byte{byte(padLen)}, padLen)
-	return append(buf, padding...), nil
+	// Always return a new slice: appending to buf would write the padding into the
+	// caller's backing array whenever buf has spare capacity
+	out := make([]byte, bufLen+padLen)
+	copy(out, buf)
+	copy(out[bufLen:], padding)
+	return out, nil
 }
 
 // UnpadPKCS7 removes PKCS#7 from a message.
